@@ -132,6 +132,36 @@ def prop(case):
                 raise Violation("collision-changed-state", "%s: the refused call changed the Gfa" % ctx, "unname")
             check_namespace(run, ctx)
             continue
+        if kind == "rename_pending":
+            # a rename to an identifier which other lines mention and no line defines yet: gfapy refuses it; if a
+            # library accepts it, the renamed line must BE the line those mentions resolve to.  Either way the
+            # namespace and the reference graph stay coherent
+            rec = run.model.recs[op[1]]
+            line = run.find_line(rec)
+            if line is None:
+                raise Violation("line-lost", "%s: no line for %r" % (ctx, rec.text()))
+            before, btext = O.observe(run.gfa), str(run.gfa)
+            try:
+                line.name = op[2]
+                raised = None
+            except GfapyError as e:
+                raised = e
+            except Exception as e:
+                raise Violation("rename-foreign", "%s: raised %s: %s" % (ctx, type(e).__name__, str(e)[:200]), type(e).__name__)
+            labels["rename_pending"] = "refused" if raised is not None else "accepted"
+            if raised is not None:
+                if O.observe(run.gfa) != before or str(run.gfa) != btext:
+                    raise Violation("collision-changed-state", "%s: the refused call changed the Gfa:\n%s" % (ctx, O.obs_diff(before, O.observe(run.gfa))), "rename_pending")
+                check_namespace(run, ctx)
+                continue
+            probs = O.invariants(run.gfa)
+            if probs:
+                raise Violation("invariant", "%s: a rename to an identifier that lines are waiting for was accepted, and then: %s\n%s" % (ctx, probs[:4], str(run.gfa)), "rename_pending")
+            got = [x for x in run.gfa.names if str(x) == op[2]]
+            if len(got) != 1 or run.gfa.line(op[2]) is not line:
+                raise Violation("lookup-wrong", "%s: after the accepted rename names holds %r %d times and line(%r) is %r" % (
+                    ctx, op[2], len(got), op[2], O.line_text(run.gfa.line(op[2])) if run.gfa.line(op[2]) is not None else None), "rename_pending")
+            return dict(labels, stopped="rename_pending_accepted")
         if kind in ("collide_add", "collide_rename", "collide_give_id"):
             before = O.observe(run.gfa)
             btext = str(run.gfa)
@@ -279,6 +309,12 @@ def gen_case(r, version):
         x = r.random()
         named = [i for i, rec in enumerate(st_.model.recs) if M.name_of(rec) is not None]
         names = st_.model.names()
+        pend = sorted(st_.model.undefined_mentions())
+        if pend and named and gen.fair(r, 0.08):
+            i = gen.choice(r, named)
+            if not (version == "gfa1" and st_.model.recs[i].rt in "LC"):
+                ops.append(["rename_pending", i, gen.choice(r, pend)])
+                continue
         if x < 0.12:
             ops.append(["unused_name"])
         elif x < 0.2 and version == "gfa1" and not st_.model.missing_links() and len(st_.model.segment_names()) >= 1 and gen.chance(r, 0.5):
